@@ -1024,26 +1024,32 @@ pub fn filter_permitted(request: &RequestedItems, permitted: PermittedItems) -> 
     permitted
         .into_iter()
         .filter_map(|(doc_type, namespaces)| {
-            request
+            // A request may name the same document type in more than one entry.
+            let items: Vec<&ItemsRequest> = request
                 .iter()
-                .find(|item| item.doc_type == doc_type)
-                .map(|item| {
-                    namespaces
+                .filter(|item| item.doc_type == doc_type)
+                .collect();
+            if items.is_empty() {
+                return None;
+            }
+            let namespaces = namespaces
+                .into_iter()
+                .filter_map(|(ns, elems)| {
+                    let req_elems: Vec<_> = items
+                        .iter()
+                        .filter_map(|item| item.namespaces.get(&ns))
+                        .collect();
+                    if req_elems.is_empty() {
+                        return None;
+                    }
+                    let elems = elems
                         .into_iter()
-                        .filter_map(|(ns, elems)| {
-                            item.namespaces
-                                .get(&ns)
-                                .map(|req_elems| {
-                                    elems
-                                        .into_iter()
-                                        .filter(|elem| req_elems.contains_key(elem))
-                                        .collect()
-                                })
-                                .map(|e| (ns, e))
-                        })
-                        .collect()
+                        .filter(|elem| req_elems.iter().any(|r| r.contains_key(elem)))
+                        .collect();
+                    Some((ns, elems))
                 })
-                .map(|ns| (doc_type, ns))
+                .collect();
+            Some((doc_type, namespaces))
         })
         .collect()
 }
